@@ -263,7 +263,7 @@ PROPS = {
     "C16": P("proof", ["usp"], trusted_base=TB_CORR, coq_files=["Properties_C16.v", "Properties_C16_compare.v"]),
     "C17": P("proof", ["filepath"], trusted_base=TB_CORR),
     "C04": {"level": "exploration", "streams": ["runtime:run_c04"], "trusted_base": TB_CORR,
-            "stream_names": ["buffer", "parse", "setters", "histories", "canparse", "encodings", "ipv4", "ipv6", "percent", "urlenc", "usp", "host", "filepath"]},
+            "stream_names": ["buffer", "alias", "parse", "setters", "histories", "canparse", "encodings", "ipv4", "ipv6", "percent", "urlenc", "usp", "host", "filepath"]},
     "C18": {"level": "translation_validation", "streams": ["runtime:run_c18"], "trusted_base": TB_CORR,
             "stream_names": ["parse", "reparse", "setters", "histories", "canparse", "encodings", "ipv4", "ipv6", "percent", "urlenc", "usp", "host", "filepath"]},
     "C19": {"level": "exploration", "streams": ["runtime:run_c19"], "proof_search": None,
